@@ -9,6 +9,9 @@
      history_legal i d h = never pop below level 0 (push(n)/pop(n) with any n, reset_assertions,
                            one-shot checks, get_model anywhere), exit (if any) last, and get_value
                            queries mention only symbols of live assertions.
+   Custom sorts of arity 0 are part of the model: declared_sorts is a second declared-set with its
+   own level stack, and sorts and function symbols are separate name spaces in the wrapper and in
+   the strict solver (a number may name a sort and a symbol at once).
    The last condition is what is left of the `_refuted` discipline: get_value does not declare
    the symbols of its term (C17_stream_legal_refuted_value, open finding); without get_value
    calls every user-legal history qualifies (C17_stream_legal_user). *)
